@@ -25,7 +25,11 @@ func checkC09(w *World, r *Report) {
 	r.Rule("VEST-REM", "last instalment takes the running remainder", 2)
 	r.Rule("VEST-ONCE", "release transfer ⇔ Released persisted for the same record", 3)
 	r.Rule("VEST-WRITERS", "vesting queue writers", 3)
-	tm := NewTerms(w)
+	vestingObligations(w, r, NewTerms(w))
+}
+
+// vestingObligations adds the VEST-* obligations (shared by C09 and, for the vesting escrow clause, C01).
+func vestingObligations(w *World, r *Report, tm *Terms) {
 	bb := w.beginBlockFn()
 	tree := w.reachableFrom(bb)
 	ms := w.msgServerMethods()
